@@ -573,7 +573,7 @@ SCALE = ["S1-twelve-tasks", "S2-ten-prequeued", "S3-four-restarts", "S4-two-subm
          "S8-backlog-behind-gate", "S9-restart-with-backlog", "S10-callable-kinds", "S11-failing-partial-then-chain"]
 # (pool size, deepest ladder level): with more than 3 workers even the preemption-free level (free choices when a thread blocks) has
 # 10^5 schedules for these programs, so larger pools appear only in the 4-chain program
-SCALE_SIZES = {"quick": [((1, 0), 1), ((2, 1), 1), ((3, 1), 0)], "thorough": [((1, 0), 3), ((1, 1), 3), ((2, 0), 2), ((2, 1), 2), ((3, 0), 1), ((3, 1), 1), ((3, 3), 1)]}
+SCALE_SIZES = {"quick": [((1, 0), 1), ((2, 1), 1), ((3, 1), 0)], "thorough": [((1, 0), 2), ((1, 1), 2), ((2, 0), 1), ((2, 1), 1), ((3, 0), 0), ((3, 1), 0), ((3, 3), 0)]}
 
 
 FAULT_PROGRAMS = {
@@ -625,7 +625,7 @@ def scale_h(tier, names=None):
         sizes = SCALE_SIZES[tier]
         if n == "S6-chain4":
             # a 4-chain needs 4 workers (the property promises progress for up to max_threads mutually dependent tasks)
-            sizes = [((4, 0), 0), ((4, 2), 0)] if tier == "quick" else [((4, 0), 1), ((4, 2), 1), ((4, 4), 1), ((5, 1), 0)]
+            sizes = [((4, 0), 0), ((4, 2), 0)] if tier == "quick" else [((4, 0), 0), ((4, 2), 0), ((4, 4), 0), ((5, 1), 0)]
         for size, deepest in sizes:
             q = 1 if "bounded" in n else 0
             out.append((spec(size, q, prog, sub, "sync"), "%s/%d.%d/q%d/sync" % (n, size[0], size[1], q), deepest))
